@@ -109,7 +109,10 @@ func (l *CustomQueryListener) EnterSelect_list(ctx *Select_listContext) {
 //nolint:all
 func (l *CustomQueryListener) EnterPredicate_invocation(ctx *Predicate_invocationContext) {
 	predicateName := ctx.Predicate_name().GetText()
-	parameters := ctx.Argument_list().GetText()
+	parameters := ""
+	if ctx.Argument_list() != nil {
+		parameters = ctx.Argument_list().GetText()
+	}
 	// split the arguments by comma
 	invokedPredicateArgs := strings.Split(parameters, ",")
 	arguments := l.extractArguments(invokedPredicateArgs)
